@@ -18,6 +18,7 @@ import (
 	"fmt"
 	"net/url"
 	"regexp"
+	"strings"
 
 	"github.com/oxia-db/oxia/common/compare"
 	"github.com/oxia-db/oxia/common/constant"
@@ -349,8 +350,22 @@ func doSecondaryGet(db kv.DB, req *proto.GetRequest) (primaryKey string, seconda
 		it.SeekGE(searchKey)
 	}
 
+	indexPrefix := fmt.Sprintf(secondaryIdxRangePrefixFormat, indexName, "")
+	steppedBack := false
 	for it.Valid() {
 		itKey := it.Key()
+		if !strings.HasPrefix(itKey, indexPrefix) {
+			// The iterator is positioned outside this index (e.g. on an entry of the next
+			// index): for floor/lower the answer can only be the entry right before it
+			if !steppedBack && (req.ComparisonType == proto.KeyComparisonType_FLOOR ||
+				req.ComparisonType == proto.KeyComparisonType_LOWER) {
+				steppedBack = true
+				it.Prev()
+				continue
+			}
+			return "", "", nil
+		}
+		steppedBack = true
 		primaryKey, secondaryKey, err = secondaryIndexPrimaryAndSecondaryKey(itKey)
 		if err != nil && !errors.Is(err, errFailedToParseSecondaryKey) {
 			return "", "", err
